@@ -9,13 +9,15 @@ import (
 
 // A Scenario is one property's workload generator plus oracle.
 type Scenario struct {
-	ID   string
-	Gen  func(r *Rng, tier string) *World
+	ID  string
+	Gen func(r *Rng, tier string) *World
 	// GenIdx, when set, replaces Gen: the world is a function of (base seed, world index),
 	// which lets a scenario enumerate a fault space across consecutive indices.
 	GenIdx func(seed uint64, idx int, tier string) *World
-	Run  func(x *X) *Violation
-	Rule string // non-triviality / distinctness rule, in words (goes to the evidence)
+	Run    func(x *X) *Violation
+	Rule   string // non-triviality / distinctness rule, in words (goes to the evidence)
+	// Valid, when set, tells the minimiser whether a candidate world still satisfies the scenario's preconditions.
+	Valid func(w *World) bool
 }
 
 var Scenarios = map[string]*Scenario{}
